@@ -33,13 +33,18 @@ TRUSTED = ["CIF text layer (C06) and BinaryCIF encodings (C05), msgpack: exercis
 ASSUMPTIONS = ["the component dictionary is a parameter of the model (instantiated by fixtures/C04/components.bcif)",
                "coordinates, B-factors, occupancies, extra fields and the box are opaque tokens in the model",
                "inter-residue bonds of type ANY / AROMATIC* cannot be expressed in struct_conn (known findings)"]
-LEVEL_TEXT = ("Lean theorems on a token-table model of set_structure/get_structure: atom table round-trip for every model "
-              "count and optional-field choice, exact model selection, dense == dict matching, bond partition, "
-              "struct_conn round-trip for uniquely identifiable atoms (partial: bond types SINGLE..QUADRUPLE and "
-              "COORDINATION), altloc policies exact; intra-residue (chem_comp_bond) round-trip exercised by "
-              "correspondence + oracle; files through the three real writers by the oracle")
+LEVEL_TEXT = ("Lean theorems on a token-table model of set_structure/get_structure (component dictionary as a parameter): "
+              "atom table round-trip for every model count and optional-field choice, exact model selection, dense == dict "
+              "matching, bond partition; bond round-trip proved path by path and composed: struct_conn (uniquely "
+              "identifiable atoms, types SINGLE..QUADRUPLE/COORDINATION), chem_comp_bond (every type it can express, under "
+              "the decidable component-consistency predicate), two-sided writer<->reader statement for dropped backbone "
+              "links, and C04_bonds_roundtrip_partial: writeBlock then readStructure(model=1, include_bonds) returns the "
+              "same atoms and exactly the same typed bond set for every well-formed structure (WFS); altloc first and "
+              "occupancy policies exact. Partial: inter-residue ANY/AROMATIC* (known findings), dictionary-implied links of "
+              "non-SINGLE type, model=None composition and text==binary==compressed (proved only relative to the assumed "
+              "C05/C06 table identities) are covered by correspondence + the write-read oracle through the three real writers")
 LEVEL_NOTE = "CIF text layer, BinaryCIF encodings, float formatting and box trigonometry are trusted/exercised only"
-TECHNIQUE = "Lean 4 proof (induction over row lists / model blocks) + correspondence + write-read oracle"
+TECHNIQUE = "Lean 4 proof (induction over row lists / residue groups / dict insertion, composition through readStructure) + correspondence + write-read oracle"
 
 # ------------------------------------------------------------------ synthetic component dictionary
 # name -> (chem_comp.type, [(atom1, atom2, value_order, aromatic_flag)])
